@@ -46,6 +46,14 @@ func NewChangelog() Changelog {
 
 // Changed records the portion of code altered in this match to the Changelog.
 func (c Changelog) Changed(start, end token.Pos) {
+	// A change without a valid start is not attributable to a region of
+	// the source. Such an interval used to be ignored when comments were
+	// cleaned up, but only as long as it stayed in one piece: if Unchanged
+	// regions split it, everything between them, including comments of
+	// declarations that were not touched, was treated as changed.
+	if !start.IsValid() {
+		return
+	}
 	c.plus.Add((&span{Start: start, End: end}).AsSet())
 }
 
